@@ -51,7 +51,7 @@ package seat_manager
 //@   property C04 C05 C08
 //@   returns r
 //@   config M 2..10 : sm.MaxSeat = M, len(sm.SeatData) = M
-//@   requires SmBase(sm) && inRange(sm, startSeatID)
+//@   requires SmBase(sm) && inRange(sm, startSeatID) && held(sm.mu)
 //@   modifies nothing
 //@   ensures next-live: firstLiveCW(sm, startSeatID, r)
 
@@ -59,7 +59,7 @@ package seat_manager
 //@   property C04 C05
 //@   returns r
 //@   config M 2..10 : sm.MaxSeat = M, len(sm.SeatData) = M
-//@   requires SmBase(sm) && inRange(sm, startSeatID)
+//@   requires SmBase(sm) && inRange(sm, startSeatID) && held(sm.mu)
 //@   modifies nothing
 //@   ensures next-active: firstActiveCW(sm, startSeatID, r)
 
@@ -67,7 +67,7 @@ package seat_manager
 //@   property C04
 //@   returns r
 //@   config M 2..10 : sm.MaxSeat = M, len(sm.SeatData) = M
-//@   requires SmBase(sm) && inRange(sm, startSeatID)
+//@   requires SmBase(sm) && inRange(sm, startSeatID) && held(sm.mu)
 //@   modifies nothing
 //@   ensures prev-active: shouldActive ==> firstActiveCCW(sm, startSeatID, r)
 //@   ensures prev-occ: !shouldActive ==> firstOccCCW(sm, startSeatID, r)
@@ -76,7 +76,7 @@ package seat_manager
 //@   property C04
 //@   returns r
 //@   config M 2..10 : sm.MaxSeat = M, len(sm.SeatData) = M
-//@   requires SmBase(sm) && inRange(sm, startSeatID)
+//@   requires SmBase(sm) && inRange(sm, startSeatID) && held(sm.mu)
 //@   modifies nothing
 //@   ensures prev-live: firstLiveCCW(sm, startSeatID, r)
 
@@ -95,7 +95,7 @@ package seat_manager
 //@   property C04 C05
 //@   returns r
 //@   config M 2..10 : sm.MaxSeat = M, len(sm.SeatData) = M
-//@   requires SmBase(sm)
+//@   requires SmBase(sm) && held(sm.mu)
 //@   modifies nothing
 //@   loop 0 maporder asc
 //@   ensures count: r == cnt(s, 0, sm.MaxSeat, ActiveAt(sm, s))
@@ -119,7 +119,7 @@ package seat_manager
 //@   property C04 C05 C08
 //@   returns err
 //@   config M 2..10 : sm.MaxSeat = M, len(sm.SeatData) = M
-//@   requires SmWF(sm) && sm.IsInit
+//@   requires SmWF(sm) && sm.IsInit && held(sm.mu)
 //@   modifies sm.DealerSeatID, sm.SBSeatID, sm.BBSeatID, forall(s, 0, sm.MaxSeat, sm.SeatData[s].IsBetweenDealerBB)
 //@   loop 0 maporder asc
 //@   loop 1 maporder asc
@@ -151,7 +151,7 @@ package seat_manager
 //@   property C03 C05
 //@   returns sp, seat, err
 //@   config M 2..10 : sm.MaxSeat = M, len(sm.SeatData) = M
-//@   requires SmBase(sm)
+//@   requires SmBase(sm) && held(sm.mu)
 //@   modifies nothing
 //@   ensures found: err == nil ==> inRange(sm, seat) && seatedAt(sm, playerID, seat) && sp == sm.SeatData[seat]
 //@   ensures not-found: err != nil ==> err == ErrPlayerNotFound && seat == -1 && sp == nil && !seated(sm, playerID)
@@ -183,6 +183,7 @@ package seat_manager
 //@   returns active, err
 //@   config M 2..10 : sm.MaxSeat = M, len(sm.SeatData) = M
 //@   requires SmBase(sm) && !held(sm.mu)
+//@   guarded sm.mu : "seat_manager.seatManager.SeatData", "map.int.*seat_manager.SeatPlayer", "seat_manager.SeatPlayer.", "seat_manager.seatManager.DealerSeatID", "seat_manager.seatManager.SBSeatID", "seat_manager.seatManager.BBSeatID", "seat_manager.seatManager.IsInit"
 //@   modifies nothing
 //@   ensures found: err == nil ==> forall(s, 0, sm.MaxSeat, seatedAt(sm, playerID, s) ==> (active <==> ActiveAt(sm, s))) && seated(sm, playerID)
 //@   ensures not-found: err != nil ==> err == ErrPlayerNotFound && !active && !seated(sm, playerID)
@@ -193,7 +194,7 @@ package seat_manager
 //@   property C03
 //@   returns r
 //@   config M 2..10 : sm.MaxSeat = M, len(sm.SeatData) = M
-//@   requires SmBase(sm)
+//@   requires SmBase(sm) && held(sm.mu)
 //@   modifies nothing
 //@   ensures bounds: 0 <= len(r) && len(r) <= sm.MaxSeat && fresh(r)
 //@   ensures sound: forall(i, 0, sm.MaxSeat, i < len(r) ==> inRange(sm, r[i]) && !occ(sm, r[i]))
@@ -204,7 +205,7 @@ package seat_manager
 //@   property C04
 //@   returns r
 //@   config M 2..10 : sm.MaxSeat = M, len(sm.SeatData) = M
-//@   requires SmBase(sm)
+//@   requires SmBase(sm) && held(sm.mu)
 //@   modifies nothing
 //@   ensures bounds: 0 <= len(r) && len(r) <= sm.MaxSeat && fresh(r)
 //@   ensures sound: forall(i, 0, sm.MaxSeat, i < len(r) ==> inRange(sm, r[i]) && ActiveAt(sm, r[i]))
@@ -214,7 +215,7 @@ package seat_manager
 //@   property C04
 //@   returns seat, err
 //@   config M 2..10 : sm.MaxSeat = M, len(sm.SeatData) = M
-//@   requires SmBase(sm)
+//@   requires SmBase(sm) && held(sm.mu)
 //@   modifies nothing
 //@   ensures some-active: err == nil ==> inRange(sm, seat) && ActiveAt(sm, seat)
 //@   ensures none-active: err != nil <==> activeCount(sm) == 0
@@ -223,7 +224,7 @@ package seat_manager
 //@   property C04
 //@   returns seat, err
 //@   config M 2..10 : sm.MaxSeat = M, len(sm.SeatData) = M
-//@   requires SmBase(sm)
+//@   requires SmBase(sm) && held(sm.mu)
 //@   modifies nothing
 //@   ensures some-active: err == nil ==> inRange(sm, seat) && ActiveAt(sm, seat)
 //@   ensures none-active: err != nil <==> activeCount(sm) == 0
@@ -238,7 +239,7 @@ package seat_manager
 //@   property C04 C05
 //@   returns err
 //@   config M 2..10 : sm.MaxSeat = M, len(sm.SeatData) = M
-//@   requires SmWF(sm) && !sm.IsInit
+//@   requires SmWF(sm) && !sm.IsInit && held(sm.mu)
 //@   modifies sm.DealerSeatID, sm.SBSeatID, sm.BBSeatID
 //@   ensures refused-iff-few-or-bad-rule: err != nil <==> activeCount(sm) < 2 || (sm.Rule != Rule_Default && sm.Rule != Rule_ShortDeck)
 //@   ensures refused-sets-nothing: err != nil ==> unchanged(sm.DealerSeatID, sm.SBSeatID, sm.BBSeatID)
@@ -261,6 +262,7 @@ package seat_manager
 //@   returns err
 //@   config M 2..10 : sm.MaxSeat = M, len(sm.SeatData) = M
 //@   requires SmWF(sm) && !held(sm.mu)
+//@   guarded sm.mu : "seat_manager.seatManager.SeatData", "map.int.*seat_manager.SeatPlayer", "seat_manager.SeatPlayer.", "seat_manager.seatManager.DealerSeatID", "seat_manager.seatManager.SBSeatID", "seat_manager.seatManager.BBSeatID", "seat_manager.seatManager.IsInit"
 //@   modifies sm.DealerSeatID, sm.SBSeatID, sm.BBSeatID, sm.IsInit
 //@   ensures inv: SmWF(sm)
 //@   ensures twice-refused: old(sm.IsInit) ==> err != nil
@@ -278,6 +280,7 @@ package seat_manager
 //@   returns err
 //@   config M 2..10 : sm.MaxSeat = M, len(sm.SeatData) = M
 //@   requires SmWF(sm) && !held(sm.mu)
+//@   guarded sm.mu : "seat_manager.seatManager.SeatData", "map.int.*seat_manager.SeatPlayer", "seat_manager.SeatPlayer.", "seat_manager.seatManager.DealerSeatID", "seat_manager.seatManager.SBSeatID", "seat_manager.seatManager.BBSeatID", "seat_manager.seatManager.IsInit"
 //@   modifies sm.DealerSeatID, sm.SBSeatID, sm.BBSeatID, forall(s, 0, sm.MaxSeat, sm.SeatData[s].IsBetweenDealerBB)
 //@   ensures inv: SmWF(sm)
 //@   ensures before-init-refused: !sm.IsInit ==> err == ErrUnableToRotatePositions
@@ -291,6 +294,7 @@ package seat_manager
 //@   returns err
 //@   config M 2..10 : sm.MaxSeat = M, len(sm.SeatData) = M
 //@   requires SmWF(sm) && !held(sm.mu) && 0 <= len(playerIDs) && len(playerIDs) <= 1
+//@   guarded sm.mu : "seat_manager.seatManager.SeatData", "map.int.*seat_manager.SeatPlayer", "seat_manager.SeatPlayer.", "seat_manager.seatManager.DealerSeatID", "seat_manager.seatManager.SBSeatID", "seat_manager.seatManager.BBSeatID", "seat_manager.seatManager.IsInit"
 //@   modifies forall(s, 0, sm.MaxSeat, sm.SeatData[s].IsIn)
 //@   loop 0 unroll 1
 //@   loop 1 unroll 1
@@ -305,6 +309,7 @@ package seat_manager
 //@   returns err
 //@   config M 2..10 : sm.MaxSeat = M, len(sm.SeatData) = M
 //@   requires SmWF(sm) && !held(sm.mu)
+//@   guarded sm.mu : "seat_manager.seatManager.SeatData", "map.int.*seat_manager.SeatPlayer", "seat_manager.SeatPlayer.", "seat_manager.seatManager.DealerSeatID", "seat_manager.seatManager.SBSeatID", "seat_manager.seatManager.BBSeatID", "seat_manager.seatManager.IsInit"
 //@   modifies forall(s, 0, sm.MaxSeat, sm.SeatData[s].HasChips)
 //@   ensures inv: SmWF(sm)
 //@   ensures unknown-refused: err != nil <==> !seated(sm, playerID)
@@ -331,6 +336,7 @@ package seat_manager
 //@   returns err
 //@   config M 2..10 : sm.MaxSeat = M, len(sm.SeatData) = M
 //@   requires SmWF(sm) && !held(sm.mu) && 0 <= len(playerIDs) && len(playerIDs) <= sm.MaxSeat
+//@   guarded sm.mu : "seat_manager.seatManager.SeatData", "map.int.*seat_manager.SeatPlayer", "seat_manager.SeatPlayer.", "seat_manager.seatManager.DealerSeatID", "seat_manager.seatManager.SBSeatID", "seat_manager.seatManager.BBSeatID", "seat_manager.seatManager.IsInit"
 //@   modifies sm.SeatData[all]
 //@   loop 0 unroll M
 //@   loop 1 unroll M
@@ -346,8 +352,9 @@ package seat_manager
 //@ func (*seatManager).AssignSeats
 //@   property C03 C05 C16
 //@   returns err
-//@   config M 2..10 : sm.MaxSeat = M, len(sm.SeatData) = M
+//@   config M 2..10 quick 2..6 : sm.MaxSeat = M, len(sm.SeatData) = M
 //@   requires SmWF(sm) && !held(sm.mu)
+//@   guarded sm.mu : "seat_manager.seatManager.SeatData", "map.int.*seat_manager.SeatPlayer", "seat_manager.SeatPlayer.", "seat_manager.seatManager.DealerSeatID", "seat_manager.seatManager.SBSeatID", "seat_manager.seatManager.BBSeatID", "seat_manager.seatManager.IsInit"
 //@   modifies sm.SeatData[all]
 //@   loop 0 unroll M
 //@   loop 2 unroll M
@@ -366,7 +373,7 @@ package seat_manager
 //@   property C03
 //@   returns ids, err
 //@   config M 2..10 : sm.MaxSeat = M, len(sm.SeatData) = M
-//@   requires SmBase(sm) && 0 <= count
+//@   requires SmBase(sm) && 0 <= count && held(sm.mu)
 //@   modifies nothing
 //@   ensures refused: err != nil ==> err == ErrNotEnoughSeats && ids == nil
 //@   ensures full-table-refused: count >= 1 && forall(s, 0, sm.MaxSeat, occ(sm, s)) ==> err != nil
@@ -379,8 +386,9 @@ package seat_manager
 //@ func (*seatManager).RandomAssignSeats
 //@   property C03 C05 C16
 //@   returns err
-//@   config M 2..10 : sm.MaxSeat = M, len(sm.SeatData) = M
+//@   config M 2..10 quick 2..6 : sm.MaxSeat = M, len(sm.SeatData) = M
 //@   requires SmWF(sm) && !held(sm.mu) && 0 <= len(playerIDs) && len(playerIDs) <= sm.MaxSeat     // batches no larger than the table
+//@   guarded sm.mu : "seat_manager.seatManager.SeatData", "map.int.*seat_manager.SeatPlayer", "seat_manager.SeatPlayer.", "seat_manager.seatManager.DealerSeatID", "seat_manager.seatManager.SBSeatID", "seat_manager.seatManager.BBSeatID", "seat_manager.seatManager.IsInit"
 //@   modifies sm.SeatData[all]
 //@   loop 0 unroll M
 //@   loop 2 unroll M
